@@ -15,7 +15,7 @@ TYPES = {
     'json': ROOT_SCALARS + ROOT_VECTORS + OBJECTS + TYPED_KEY_MAPS + ['csvrows'],
     'msgpack': ROOT_SCALARS + ROOT_VECTORS + OBJECTS + TYPED_KEY_MAPS + ['csvrows'],
     'xml': ROOT_VECTORS + OBJECTS + ['csvrows'],
-    'csv': ['csvrows', 'csvmaps', 'csvscalars', 'csvlist'],
+    'csv': ['csvrows', 'csvmaps', 'csvscalars', 'csvlist', 'csvflist', 'csvdeque'],
 }
 ENCODINGS = ['utf8', 'utf16le', 'utf16be', 'utf32le', 'utf32be']
 SEPARATORS = ['comma', 'semicolon', 'tab', 'space', 'pipe']
